@@ -564,6 +564,10 @@ func famSesHostile(t *testing.T, r *Rec) {
 	// inflated and truncated length prefixes
 	add("v3-binary-body/12-digit-length", "C09", "ses hs polling 3 0 -", "ses post s1 b 1 00090909090909090909090909ff")
 	add("v3-binary-body/12-digit-length-binary-packet", "C09", "ses hs polling 3 0 -", "ses post s1 b 1 01090909090909090909090909ff04")
+	add("v3-binary-body/negative-length-binary-packet", "C09", "ses hs polling 3 0 -", "ses post s1 b 1 01fd05ff0401020304")
+	add("v3-binary-body/negative-length-string-packet", "C09", "ses hs polling 3 0 -", "ses post s1 b 1 00fd05ff3461626364")
+	add("v3-binary-body/no-terminator", "C09", "ses hs polling 3 0 -", "ses post s1 b 1 000102")
+	add("v3-binary-body/two-packets", "C09", "ses hs polling 3 0 -", "ses post s1 b 1 0003ff34c3a90102ff0405")
 	add("v3-string-body/huge-length", "C09", "ses hs polling 3 0 -", "ses post s1 t 1 "+hx([]byte("999999999999:4a")))
 	add("v3-string-body/negative-length", "C09", "ses hs polling 3 0 -", "ses post s1 t 1 "+hx([]byte("-5:4abc")))
 	add("v3-string-body/no-colon", "C09", "ses hs polling 3 0 -", "ses post s1 t 1 "+hx([]byte("4abc")))
@@ -604,6 +608,11 @@ func famSesHostile(t *testing.T, r *Rec) {
 			}
 			r.Violate("C09", "C09/"+strings.SplitN(fault, ":", 2)[0]+"/"+sc.name, "client input "+what+": "+fault, sc.lines)
 			continue
+		}
+		for i, out := range outs {
+			if strings.Contains(out, "PANIC:") {
+				r.Violate("C09", "C09/handler-panic/"+sc.name, "client input made a request handler panic: "+out[:min(len(out), 200)], sc.lines[:i+1])
+			}
 		}
 		last := parseObs(outs[len(outs)-1])
 		// the bystander still exchanges messages
